@@ -9,18 +9,21 @@ PROPS = {
         "quick": [
             {"test": "TestC06Text", "checks": 30000},
             {"test": "TestC06Frag", "checks": 30000},
+            {"test": "TestC06Opaque", "checks": 30000, "shards": 2},
             {"test": "TestC06Enum", "kind": "enum", "env": {"VERIF_C06_ENUM_LEN": "5"}, "shards": 2},
             {"test": "TestC06TemplatetagUnknown", "kind": "plain"},
         ],
         "thorough": [
             {"test": "TestC06Text", "checks": 1600000, "shards": 8},
-            {"test": "TestC06Frag", "checks": 1600000, "shards": 16},
+            {"test": "TestC06Frag", "checks": 1600000, "shards": 12},
+            {"test": "TestC06Opaque", "checks": 1600000, "shards": 4},
             {"test": "TestC06Enum", "kind": "enum", "env": {"VERIF_C06_ENUM_LEN": "7"}, "shards": 16},
             {"test": "TestC06TemplatetagUnknown", "kind": "plain"},
         ],
         "fuzz": [{"fuzz": "FuzzC06Text", "fuzztime": "60s"}],
         "assumptions": [
-            "fragments carry no '-' trim markers (C15 covers those)",
+            "C06.text / C06.frag: fragments carry no '-' trim markers (C15 covers those); C06.opaque has them, and TrimBlocks / LStripBlocks, next to verbatim blocks and comments",
+            "whether whitespace control looks through an EMPTY verbatim block or a comment ('directly after a block tag') is left open, as in C15",
             "comment-tag bodies are lexically valid (the tag skips tokens, so its body is lexed)",
         ],
     },
